@@ -129,4 +129,758 @@ theorem uniq_eq_nil {l : List Rat} : uniq l = [] ↔ l = [] := by
       rw [h] at this; cases this
   · rintro rfl; rfl
 
+/-! ### the abscissa blocks of `extendInterpolationTable` -/
+
+theorem mem_keep {s : State} {xs : List Rat} {x : Rat} : x ∈ keep s xs ↔ x ∈ xs ∧ x ∉ s.bad := by
+  simp [keep, List.mem_filter]
+
+theorem inc_keep {s : State} {xs : List Rat} (h : Inc xs) : Inc (keep s xs) :=
+  List.Pairwise.filter _ h
+
+theorem inc_map_range (n : Nat) (a d : Rat) (hd : 0 < d) :
+    Inc ((List.range n).map (fun (i : Nat) => a + (i : Rat) * d)) := by
+  refine (List.pairwise_lt_range (n := n)).map _ ?_
+  intro i j hij
+  have : (i : Rat) < (j : Rat) := by exact_mod_cast hij
+  nlinarith
+
+theorem inc_belowBlock (a r : Rat) (p : Nat) : Inc (belowBlock a r p) := by
+  unfold belowBlock
+  split_ifs with h
+  · have hp : (0 : Rat) < (p : Rat) := by exact_mod_cast h.2
+    exact inc_map_range p a _ (div_pos (by linarith [h.1]) hp)
+  · exact List.Pairwise.nil
+
+theorem belowBlock_lt {a r : Rat} {p : Nat} {y : Rat} (hy : y ∈ belowBlock a r p) : y < r := by
+  unfold belowBlock at hy
+  split_ifs at hy with h
+  · obtain ⟨i, hi, rfl⟩ := List.mem_map.1 hy
+    have hi' : (i : Rat) < (p : Rat) := by exact_mod_cast List.mem_range.1 hi
+    have hp : (0 : Rat) < (p : Rat) := by exact_mod_cast h.2
+    have hs : 0 < (r - a) / (p : Rat) := div_pos (by linarith [h.1]) hp
+    have hps : (p : Rat) * ((r - a) / (p : Rat)) = r - a := by field_simp
+    nlinarith
+  · cases hy
+
+theorem inc_aboveBlock (b r : Rat) (p : Nat) : Inc (aboveBlock b r p) := by
+  unfold aboveBlock
+  split_ifs with h
+  · have hp : (0 : Rat) < (p : Rat) := by exact_mod_cast h.2
+    exact inc_map_range p _ _ (div_pos (by linarith [h.1]) hp)
+  · exact List.Pairwise.nil
+
+theorem lt_aboveBlock {b r : Rat} {p : Nat} {y : Rat} (hy : y ∈ aboveBlock b r p) : r < y := by
+  unfold aboveBlock at hy
+  split_ifs at hy with h
+  · obtain ⟨i, _, rfl⟩ := List.mem_map.1 hy
+    have hi' : (0 : Rat) ≤ (i : Rat) := by exact_mod_cast Nat.zero_le i
+    have hp : (0 : Rat) < (p : Rat) := by exact_mod_cast h.2
+    have hs : 0 < (b - r) / (p : Rat) := div_pos (by linarith [h.1]) hp
+    nlinarith
+  · cases hy
+
+/-- the last appended abscissa is exactly `newMax` (exact arithmetic) -/
+theorem aboveBlock_le {b r : Rat} {p : Nat} {y : Rat} (hy : y ∈ aboveBlock b r p) : y ≤ b := by
+  unfold aboveBlock at hy
+  split_ifs at hy with h
+  · obtain ⟨i, hi, rfl⟩ := List.mem_map.1 hy
+    have hi' : (i : Rat) + 1 ≤ (p : Rat) := by exact_mod_cast List.mem_range.1 hi
+    have hp : (0 : Rat) < (p : Rat) := by exact_mod_cast h.2
+    have hs : 0 < (b - r) / (p : Rat) := div_pos (by linarith [h.1]) hp
+    have hps : (p : Rat) * ((b - r) / (p : Rat)) = b - r := by field_simp
+    nlinarith
+  · cases hy
+
+theorem le_belowBlock {a r : Rat} {p : Nat} {y : Rat} (hy : y ∈ belowBlock a r p) : a ≤ y := by
+  unfold belowBlock at hy
+  split_ifs at hy with h
+  · obtain ⟨i, _, rfl⟩ := List.mem_map.1 hy
+    have hi' : (0 : Rat) ≤ (i : Rat) := by exact_mod_cast Nat.zero_le i
+    have hp : (0 : Rat) < (p : Rat) := by exact_mod_cast h.2
+    have hs : 0 < (r - a) / (p : Rat) := div_pos (by linarith [h.1]) hp
+    nlinarith
+  · cases hy
+
+/-! ### invariants -/
+
+/-- a table, if present, has ≥ 2 strictly increasing abscissae -/
+def TableOK (s : State) : Prop := s.hasTable = true → Inc s.pts ∧ 2 ≤ s.pts.length
+
+/-- structural invariant of the object state (holds after ANY op history) -/
+structure Inv (s : State) : Prop where
+  table : TableOK s
+  count_lt : s.adaptive = true → s.count < s.threshold ∨ s.threshold = 0
+  count_eq : s.count = s.pending.length
+
+/-- no abscissa of the table or of the pending list is a point where `f` is non-finite -/
+def InvBad (s : State) : Prop := ∀ x, x ∈ s.pts ∨ x ∈ s.pending → x ∉ s.bad
+
+/-- `Inv`, and (if `B`) also `InvBad`; lets one proof serve both invariants -/
+def InvG (B : Prop) (s : State) : Prop := Inv s ∧ (B → InvBad s)
+
+/-- fields that internal transitions never change / only increase -/
+structure Evolves (s s' : State) : Prop where
+  k : s'.k = s.k
+  lo : s'.lo = s.lo
+  hi : s'.hi = s.hi
+  adaptive : s'.adaptive = s.adaptive
+  threshold : s'.threshold = s.threshold
+  initialCount : s'.initialCount = s.initialCount
+  bad : s'.bad = s.bad
+  hasTable : s.hasTable = true → s'.hasTable = true
+  epoch : s.epoch ≤ s'.epoch
+
+theorem Evolves.refl (s : State) : Evolves s s := ⟨rfl, rfl, rfl, rfl, rfl, rfl, rfl, id, le_refl _⟩
+
+theorem Evolves.trans {a b c : State} (h1 : Evolves a b) (h2 : Evolves b c) : Evolves a c :=
+  ⟨h2.k.trans h1.k, h2.lo.trans h1.lo, h2.hi.trans h1.hi, h2.adaptive.trans h1.adaptive,
+   h2.threshold.trans h1.threshold, h2.initialCount.trans h1.initialCount, h2.bad.trans h1.bad,
+   fun h => h2.hasTable (h1.hasTable h), le_trans h1.epoch h2.epoch⟩
+
+theorem interpolate_some {s s' : State} {xs : List Rat} (h : interpolate s xs = some s') :
+    s' = { s with hasTable := true, pts := xs, epoch := s.epoch + 1 } ∧ 2 ≤ xs.length ∧ Inc xs := by
+  unfold interpolate at h
+  split_ifs at h with hc
+  cases h
+  exact ⟨rfl, hc.1, (sortedB_iff _).1 hc.2⟩
+
+theorem interpolate_of_inc (s : State) {xs : List Rat} (h2 : 2 ≤ xs.length) (hi : Inc xs) :
+    interpolate s xs = some { s with hasTable := true, pts := xs, epoch := s.epoch + 1 } := by
+  unfold interpolate
+  rw [if_pos ⟨h2, (sortedB_iff _).2 hi⟩]
+
+theorem interpolate_evolves {s s' : State} {xs : List Rat} (h : interpolate s xs = some s') :
+    Evolves s s' := by
+  obtain ⟨rfl, -, -⟩ := interpolate_some h
+  exact ⟨rfl, rfl, rfl, rfl, rfl, rfl, rfl, fun _ => rfl, Nat.le_succ _⟩
+
+theorem InvG.interp {B : Prop} {s s' : State} {xs : List Rat} (h : InvG B s)
+    (hi : interpolate s xs = some s') (hb : B → ∀ x ∈ xs, x ∉ s.bad) : InvG B s' := by
+  obtain ⟨rfl, h2, hinc⟩ := interpolate_some hi
+  refine ⟨⟨fun _ => ⟨hinc, h2⟩, h.1.count_lt, h.1.count_eq⟩, fun hB x hx => ?_⟩
+  rcases hx with hx | hx
+  · exact hb hB x hx
+  · exact h.2 hB x (Or.inr hx)
+
+theorem InvG.reset {B : Prop} {s : State} (ht : TableOK s) (hb : B → InvBad s) :
+    InvG B { s with count := 0, pending := [] } := by
+  refine ⟨⟨ht, fun _ => ?_, rfl⟩, fun hB x hx => ?_⟩
+  · show 0 < s.threshold ∨ s.threshold = 0
+    omega
+  · rcases hx with hx | hx
+    · exact hb hB x (Or.inl hx)
+    · cases hx
+
+theorem rangeMin_le {s : State} (h : Inc s.pts) {x : Rat} (hx : x ∈ s.pts) : rangeMin s ≤ x :=
+  head_le_of_inc h hx
+theorem le_rangeMax {s : State} (h : Inc s.pts) {x : Rat} (hx : x ∈ s.pts) : x ≤ rangeMax s :=
+  le_getLast_of_inc h hx
+
+/-- with a valid table the abscissae handed to the spline by an extension are again valid -/
+theorem extendKept_ok {s : State} (hinc : Inc s.pts) (h2 : 2 ≤ s.pts.length) (a b : Rat) (p q : Nat) :
+    Inc (extendKept s a b p q) ∧ 2 ≤ (extendKept s a b p q).length := by
+  unfold extendKept
+  constructor
+  · show List.Pairwise _ _
+    rw [List.pairwise_append, List.pairwise_append]
+    refine ⟨⟨inc_keep (inc_belowBlock _ _ _), hinc, ?_⟩, inc_keep (inc_aboveBlock _ _ _), ?_⟩
+    · intro x hx y hy
+      exact lt_of_lt_of_le (belowBlock_lt (mem_keep.1 hx).1) (rangeMin_le hinc hy)
+    · intro x hx y hy
+      have hy' := lt_aboveBlock (mem_keep.1 hy).1
+      rcases List.mem_append.1 hx with hx | hx
+      · have hne : s.pts ≠ [] := by intro h; rw [h] at h2; simp at h2
+        have := belowBlock_lt (mem_keep.1 hx).1
+        have h3 : rangeMin s ≤ rangeMax s := rangeMin_le hinc (getLast_mem hne)
+        linarith
+      · exact lt_of_le_of_lt (le_rangeMax hinc hx) hy'
+  · simp only [List.length_append]; omega
+
+/-! ### internal transitions preserve the invariants -/
+
+theorem extendTable_inv {B : Prop} {s : State} (h : InvG B s) (a b : Rat) (p q : Nat) :
+    InvG B (extendTable s a b p q).1 := by
+  unfold extendTable
+  split_ifs with ht
+  · split
+    · next s' hs' => exact h.interp hs' (fun _ x hx => (mem_keep.1 hx).2)
+    · exact h
+  · split
+    · exact h
+    · next s' hs' =>
+      have h' : InvG B s' := h.interp hs' (fun hB x hx => by
+        unfold extendKept at hx
+        rcases List.mem_append.1 hx with hx | hx
+        · rcases List.mem_append.1 hx with hx | hx
+          · exact (mem_keep.1 hx).2
+          · exact h.2 hB x (Or.inl hx)
+        · exact (mem_keep.1 hx).2)
+      dsimp only
+      split_ifs
+      · exact InvG.reset h'.1.table h'.2
+      · exact h'
+
+theorem extendTable_evolves (s : State) (a b : Rat) (p q : Nat) :
+    Evolves s (extendTable s a b p q).1 := by
+  unfold extendTable
+  split_ifs with ht
+  · split
+    · next s' hs' => exact interpolate_evolves hs'
+    · exact Evolves.refl s
+  · split
+    · exact Evolves.refl s
+    · next s' hs' =>
+      have h' := interpolate_evolves hs'
+      dsimp only
+      split_ifs
+      · exact ⟨h'.k, h'.lo, h'.hi, h'.adaptive, h'.threshold, h'.initialCount, h'.bad, h'.hasTable, h'.epoch⟩
+      · exact h'
+
+theorem adaptiveUpdate_inv {B : Prop} {s : State} (ht : TableOK s) (hb : B → InvBad s) :
+    InvG B (adaptiveUpdate s).1 := by
+  unfold adaptiveUpdate
+  exact extendTable_inv (InvG.reset ht hb) _ _ _ _
+
+theorem adaptiveUpdate_evolves (s : State) : Evolves s (adaptiveUpdate s).1 := by
+  unfold adaptiveUpdate
+  have h := extendTable_evolves { s with count := 0, pending := [] } (minOf s.pending) (maxOf s.pending)
+    (if s.hasTable = true then s.initialCount / 5 else s.initialCount / 2)
+    (if s.hasTable = true then s.initialCount / 5 else s.initialCount / 2)
+  exact ⟨h.k, h.lo, h.hi, h.adaptive, h.threshold, h.initialCount, h.bad, h.hasTable, h.epoch⟩
+
+theorem schedule_inv {B : Prop} {s : State} (h : InvG B s) (xs : List Rat) :
+    InvG B (schedule s xs).1 := by
+  unfold schedule
+  have hbad : B → InvBad { s with count := s.count + (uniq (keep s xs)).length,
+                                   pending := s.pending ++ uniq (keep s xs) } := by
+    intro hB x hx
+    rcases hx with hx | hx
+    · exact h.2 hB x (Or.inl hx)
+    · rcases List.mem_append.1 hx with hx | hx
+      · exact h.2 hB x (Or.inr hx)
+      · exact (mem_keep.1 (mem_uniq.1 hx)).2
+  split_ifs with h1 h2 h3
+  · exact h
+  · exact h
+  · exact adaptiveUpdate_inv h.1.table hbad
+  · refine ⟨⟨h.1.table, fun _ => Or.inl (not_le.1 h3), ?_⟩, hbad⟩
+    show s.count + _ = (s.pending ++ _).length
+    rw [List.length_append, h.1.count_eq]
+
+theorem schedule_evolves (s : State) (xs : List Rat) : Evolves s (schedule s xs).1 := by
+  unfold schedule
+  split_ifs
+  · exact Evolves.refl s
+  · exact Evolves.refl s
+  · refine Evolves.trans (b := _) ?_ (adaptiveUpdate_evolves _)
+    exact ⟨rfl, rfl, rfl, rfl, rfl, rfl, rfl, id, le_refl _⟩
+  · exact ⟨rfl, rfl, rfl, rfl, rfl, rfl, rfl, id, le_refl _⟩
+
+/-- without adaptive interpolation `_evaluateDirectly` has no side effect -/
+theorem schedule_not_adaptive {s : State} (h : s.adaptive = false) (xs : List Rat) :
+    schedule s xs = (s, none) := by
+  unfold schedule; rw [if_pos h]
+
+theorem sideLower_inv {B : Prop} {s : State} (h : InvG B s) (xs : List Rat) :
+    InvG B (sideLower s xs).1 := by
+  unfold sideLower
+  split_ifs
+  · exact h
+  · split
+    · exact h
+    · exact schedule_inv h xs
+    · exact h
+
+theorem sideLower_evolves (s : State) (xs : List Rat) : Evolves s (sideLower s xs).1 := by
+  unfold sideLower
+  split_ifs
+  · exact Evolves.refl s
+  · split
+    · exact Evolves.refl s
+    · exact schedule_evolves s xs
+    · exact Evolves.refl s
+
+theorem sideUpper_inv {B : Prop} {s : State} (h : InvG B s) (xs : List Rat) :
+    InvG B (sideUpper s xs).1 := by
+  unfold sideUpper
+  split_ifs
+  · exact h
+  · split
+    · exact h
+    · exact schedule_inv h xs
+    · exact h
+
+theorem sideUpper_evolves (s : State) (xs : List Rat) : Evolves s (sideUpper s xs).1 := by
+  unfold sideUpper
+  split_ifs
+  · exact Evolves.refl s
+  · split
+    · exact Evolves.refl s
+    · exact schedule_evolves s xs
+    · exact Evolves.refl s
+
+theorem evalRun_inv {B : Prop} {s : State} (h : InvG B s) (u : Bool) (xs : List Rat) :
+    InvG B (evalRun s u xs).st := by
+  unfold evalRun
+  split_ifs
+  · exact schedule_inv h xs
+  · exact h
+  · exact h
+  · exact schedule_inv h _
+  · split
+    · exact sideLower_inv h _
+    · exact sideUpper_inv (sideLower_inv h _) _
+
+theorem evalRun_evolves (s : State) (u : Bool) (xs : List Rat) : Evolves s (evalRun s u xs).st := by
+  unfold evalRun
+  split_ifs
+  · exact schedule_evolves s xs
+  · exact Evolves.refl s
+  · exact Evolves.refl s
+  · exact schedule_evolves s _
+  · split
+    · exact sideLower_evolves s _
+    · exact (sideLower_evolves s _).trans (sideUpper_evolves _ _)
+
+theorem fst_of_eq {α β : Type} {p : α × β} {a : α} {b : β} (h : p = (a, b)) : a = p.1 := by rw [h]
+
+theorem derivDirect_inv {B : Prop} {s : State} (h : InvG B s) (order : Nat) (xd : List (Rat × Rat)) :
+    InvG B (derivDirect s order xd).1 := by
+  unfold derivDirect
+  split_ifs
+  · exact h
+  · split
+    · next s1 e he => rw [fst_of_eq he]; exact schedule_inv h _
+    · next s1 he => rw [fst_of_eq he]; exact schedule_inv h _
+  · split
+    · next s1 e he => rw [fst_of_eq he]; exact schedule_inv h _
+    · next s1 he =>
+      have h1 : InvG B s1 := by rw [fst_of_eq he]; exact schedule_inv h _
+      split
+      · next s2 e he2 => rw [fst_of_eq he2]; exact schedule_inv h1 _
+      · next s2 he2 => rw [fst_of_eq he2]; exact schedule_inv h1 _
+
+theorem derivDirect_evolves (s : State) (order : Nat) (xd : List (Rat × Rat)) :
+    Evolves s (derivDirect s order xd).1 := by
+  unfold derivDirect
+  split_ifs
+  · exact Evolves.refl s
+  · split
+    · next s1 e he => rw [fst_of_eq he]; exact schedule_evolves s _
+    · next s1 he => rw [fst_of_eq he]; exact schedule_evolves s _
+  · split
+    · next s1 e he => rw [fst_of_eq he]; exact schedule_evolves s _
+    · next s1 he =>
+      have h1 : Evolves s s1 := by rw [fst_of_eq he]; exact schedule_evolves s _
+      split
+      · next s2 e he2 => rw [fst_of_eq he2]; exact h1.trans (schedule_evolves s1 _)
+      · next s2 he2 => rw [fst_of_eq he2]; exact h1.trans (schedule_evolves s1 _)
+
+theorem derivRun_inv {B : Prop} {s : State} (h : InvG B s) (u : Bool) (order : Nat)
+    (xd : List (Rat × Rat)) : InvG B (derivRun s u order xd).1 := by
+  unfold derivRun
+  split_ifs
+  · exact derivDirect_inv h order xd
+  · exact h
+  · split
+    · exact evalRun_inv h _ _
+    · exact evalRun_inv h _ _
+  · split
+    · exact evalRun_inv h _ _
+    · split
+      · exact evalRun_inv (evalRun_inv h _ _) _ _
+      · exact evalRun_inv (evalRun_inv h _ _) _ _
+
+theorem derivRun_evolves (s : State) (u : Bool) (order : Nat) (xd : List (Rat × Rat)) :
+    Evolves s (derivRun s u order xd).1 := by
+  unfold derivRun
+  split_ifs
+  · exact derivDirect_evolves s order xd
+  · exact Evolves.refl s
+  · split
+    · exact evalRun_evolves s _ _
+    · exact evalRun_evolves s _ _
+  · split
+    · exact evalRun_evolves s _ _
+    · split
+      · exact (evalRun_evolves s _ _).trans (evalRun_evolves _ _ _)
+      · exact (evalRun_evolves s _ _).trans (evalRun_evolves _ _ _)
+
+/-! ### provenance of the entries returned by `evaluate` -/
+
+theorem inside_iff {a b x : Rat} : inside a b x = true ↔ a ≤ x ∧ x ≤ b := by
+  simp [inside, and_comm]
+
+theorem mem_outPts {s : State} {xs : List Rat} {x : Rat} :
+    x ∈ outPts s xs ↔ x ∈ xs ∧ ¬ (rangeMin s ≤ x ∧ x ≤ rangeMax s) := by
+  unfold outPts
+  rw [List.mem_filter, ← inside_iff]
+  simp
+
+theorem extendTable_err (s : State) (a b : Rat) (p q : Nat) :
+    (extendTable s a b p q).2 = none ∨ (extendTable s a b p q).2 = some .valueError := by
+  unfold extendTable
+  split_ifs <;> split <;> simp
+
+theorem schedule_err (s : State) (xs : List Rat) :
+    (schedule s xs).2 = none ∨ (schedule s xs).2 = some .valueError := by
+  unfold schedule
+  split_ifs
+  · exact Or.inl rfl
+  · exact Or.inl rfl
+  · unfold adaptiveUpdate; exact extendTable_err _ _ _ _ _
+  · exact Or.inl rfl
+
+theorem sideLower_err (s : State) (xs : List Rat) :
+    (sideLower s xs).2 = none ∨ (sideLower s xs).2 = some .valueError := by
+  unfold sideLower
+  split_ifs
+  · exact Or.inl rfl
+  · split
+    · exact Or.inr rfl
+    · exact schedule_err s xs
+    · exact Or.inl rfl
+
+theorem sideUpper_err (s : State) (xs : List Rat) :
+    (sideUpper s xs).2 = none ∨ (sideUpper s xs).2 = some .valueError := by
+  unfold sideUpper
+  split_ifs
+  · exact Or.inl rfl
+  · split
+    · exact Or.inr rfl
+    · exact schedule_err s xs
+    · exact Or.inl rfl
+
+/-- every exception `evaluate` can raise is a ValueError -/
+theorem evalRun_err (s : State) (u : Bool) (xs : List Rat) :
+    (evalRun s u xs).err = none ∨ (evalRun s u xs).err = some .valueError := by
+  unfold evalRun
+  split_ifs
+  · exact schedule_err s xs
+  · exact Or.inl rfl
+  · exact Or.inr rfl
+  · exact schedule_err s _
+  · split
+    · next e he =>
+      rcases sideLower_err s (lowPts s xs) with h | h
+      · rw [h] at he; cases he
+      · rw [h] at he; cases he; exact Or.inr rfl
+    · exact sideUpper_err _ _
+
+theorem sideLower_same {s : State} (h : s.adaptive = false ∨ s.lo ≠ .none) (xs : List Rat) :
+    (sideLower s xs).1 = s := by
+  unfold sideLower
+  split_ifs
+  · rfl
+  · split
+    · rfl
+    · next hlo =>
+      rcases h with h | h
+      · rw [schedule_not_adaptive h]
+      · exact absurd hlo h
+    · rfl
+
+theorem sideLower_error {s : State} (hlo : s.lo = .error) {xs : List Rat} (hne : xs ≠ []) :
+    sideLower s xs = (s, some .valueError) := by
+  unfold sideLower
+  rw [if_neg (by simpa using hne), hlo]
+
+theorem sideUpper_error {s : State} (hhi : s.hi = .error) {xs : List Rat} (hne : xs ≠ []) :
+    sideUpper s xs = (s, some .valueError) := by
+  unfold sideUpper
+  rw [if_neg (by simpa using hne), hhi]
+
+theorem oobTag_up {lo hi : Mode} {rmin rmax : Rat} {e0 e1 : Nat} {x : Rat} (h : rmax ≤ x) :
+    oobTag lo hi rmin rmax e0 e1 x =
+      match hi with
+      | .none => .direct x | .constant => .constHi e1 | .function => .extrap e1 x | .error => .uninit := by
+  unfold oobTag; rw [if_pos h]; cases hi <;> rfl
+
+theorem oobTag_low {lo hi : Mode} {rmin rmax : Rat} {e0 e1 : Nat} {x : Rat} (h1 : ¬ rmax ≤ x)
+    (h2 : x ≤ rmin) :
+    oobTag lo hi rmin rmax e0 e1 x =
+      match lo with
+      | .none => .direct x | .constant => .constLo e0 | .function => .extrap e0 x | .error => .uninit := by
+  unfold oobTag; rw [if_neg h1, if_pos h2]; cases lo <;> rfl
+
+/-- what the property demands of the entry `t` returned for abscissa `x` by a state `s`
+(`e1` = version of the table the upper-side value was taken from). -/
+def TagSpec (s : State) (e1 : Nat) (t : Tag) (x : Rat) : Prop :=
+  (rangeMin s ≤ x ∧ x ≤ rangeMax s → t = .spline s.epoch x) ∧
+  (x < rangeMin s →
+      (s.lo = .none → t = .direct x) ∧ (s.lo = .constant → t = .constLo s.epoch) ∧
+      (s.lo = .function → t = .extrap s.epoch x) ∧ s.lo ≠ .error) ∧
+  (rangeMax s < x →
+      (s.hi = .none → t = .direct x) ∧ (s.hi = .constant → t = .constHi e1) ∧
+      (s.hi = .function → t = .extrap e1 x) ∧ s.hi ≠ .error)
+
+theorem range_lt {s : State} (hs : Inv s) (ht : s.hasTable = true) : rangeMin s < rangeMax s :=
+  head_lt_getLast (hs.table ht).1 (hs.table ht).2
+
+theorem evalRun_spec {s : State} (hs : Inv s) (ht : s.hasTable = true) (xs : List Rat) :
+    (evalRun s true xs).err = none →
+    ∃ e1, s.epoch ≤ e1 ∧ e1 ≤ (evalRun s true xs).st.epoch ∧
+      ((s.adaptive = false ∨ s.lo ≠ .none) → e1 = s.epoch) ∧
+      ∀ x ∈ xs, TagSpec s e1 ((evalRun s true xs).tag x) x := by
+  have hlt := range_lt hs ht
+  unfold evalRun
+  rw [if_neg (by simp [ht])]
+  split_ifs with h1 h2 h3
+  · -- nothing outside
+    intro _
+    refine ⟨s.epoch, le_refl _, le_refl _, fun _ => rfl, fun x hx => ?_⟩
+    have hin : rangeMin s ≤ x ∧ x ≤ rangeMax s := by
+      by_contra hc
+      have : x ∈ outPts s xs := mem_outPts.2 ⟨hx, hc⟩
+      rw [List.isEmpty_iff.1 h1] at this; cases this
+    exact ⟨fun _ => rfl, fun h => absurd hin.1 (not_le.2 h), fun h => absurd hin.2 (not_le.2 h)⟩
+  · intro h; cases h
+  · -- NONE / NONE
+    intro _
+    refine ⟨s.epoch, le_refl _, (schedule_evolves s _).epoch, fun _ => rfl, fun x _ => ?_⟩
+    dsimp only
+    refine ⟨fun hin => by rw [if_pos (inside_iff.2 hin)], fun hx => ?_, fun hx => ?_⟩
+    · have : ¬ inside (rangeMin s) (rangeMax s) x = true := by
+        rw [inside_iff]; intro h; exact absurd h.1 (not_le.2 hx)
+      rw [if_neg this]
+      refine ⟨fun _ => rfl, fun h => ?_, fun h => ?_, fun h => ?_⟩ <;> rw [h3.1] at h <;> cases h
+    · have : ¬ inside (rangeMin s) (rangeMax s) x = true := by
+        rw [inside_iff]; intro h; exact absurd h.2 (not_le.2 hx)
+      rw [if_neg this]
+      refine ⟨fun _ => rfl, fun h => ?_, fun h => ?_, fun h => ?_⟩ <;> rw [h3.2] at h <;> cases h
+  · -- mixed modes
+    split
+    · intro h; cases h
+    · next hlow =>
+      intro hup
+      dsimp only at hup ⊢
+      have hev := sideLower_evolves s (lowPts s xs)
+      refine ⟨(sideLower s (lowPts s xs)).1.epoch, hev.epoch, (sideUpper_evolves _ _).epoch,
+        fun h => by rw [sideLower_same h], fun x hx => ?_⟩
+      unfold tagWith
+      refine ⟨fun hin => by rw [if_pos (inside_iff.2 hin)], fun hxl => ?_, fun hxu => ?_⟩
+      · have hni : ¬ inside (rangeMin s) (rangeMax s) x = true := by
+          rw [inside_iff]; intro h; exact absurd h.1 (not_le.2 hxl)
+        have hmem : x ∈ lowPts s xs := by
+          unfold lowPts
+          rw [List.mem_filter]
+          exact ⟨mem_outPts.2 ⟨hx, fun h => absurd h.1 (not_le.2 hxl)⟩, by simpa using le_of_lt hxl⟩
+        rw [if_neg hni, oobTag_low (by intro h; linarith) (le_of_lt hxl)]
+        refine ⟨fun h => by rw [h], fun h => by rw [h], fun h => by rw [h], fun h => ?_⟩
+        rw [sideLower_error h (List.ne_nil_of_mem hmem)] at hlow
+        cases hlow
+      · have hni : ¬ inside (rangeMin s) (rangeMax s) x = true := by
+          rw [inside_iff]; intro h; exact absurd h.2 (not_le.2 hxu)
+        have hmem : x ∈ upPts s xs := by
+          unfold upPts
+          rw [List.mem_filter]
+          exact ⟨mem_outPts.2 ⟨hx, fun h => absurd h.2 (not_le.2 hxu)⟩, by simpa using le_of_lt hxu⟩
+        rw [if_neg hni, oobTag_up (le_of_lt hxu)]
+        refine ⟨fun h => by rw [h], fun h => by rw [h], fun h => by rw [h], fun h => ?_⟩
+        rw [sideUpper_error (hev.hi.trans h) (List.ne_nil_of_mem hmem)] at hup
+        cases hup
+
+/-- without a table, or with `bUseInterpolatedValues=False`, every entry is a direct evaluation -/
+theorem evalRun_direct {s : State} {u : Bool} (h : u = false ∨ s.hasTable = false) (xs : List Rat) :
+    (evalRun s u xs).tag = Tag.direct := by
+  unfold evalRun; rw [if_pos h]
+
+/-- lower side ERROR: the call raises ValueError before any side effect -/
+theorem evalRun_error_lo {s : State} (hs : Inv s) (ht : s.hasTable = true) {xs : List Rat} {x : Rat}
+    (hx : x ∈ xs) (hxl : x < rangeMin s) (hlo : s.lo = .error) :
+    (evalRun s true xs).err = some .valueError ∧ (evalRun s true xs).st = s := by
+  have hlt := range_lt hs ht
+  have hout : x ∈ outPts s xs := mem_outPts.2 ⟨hx, fun h => absurd h.1 (not_le.2 hxl)⟩
+  have hmem : x ∈ lowPts s xs := by
+    unfold lowPts; rw [List.mem_filter]; exact ⟨hout, by simpa using le_of_lt hxl⟩
+  unfold evalRun
+  rw [if_neg (by simp [ht]), if_neg (by
+    intro h; rw [List.isEmpty_iff.1 h] at hout; cases hout)]
+  split_ifs with h2 h3
+  · exact ⟨rfl, rfl⟩
+  · rw [hlo] at h3; cases h3.1
+  · rw [sideLower_error hlo (List.ne_nil_of_mem hmem)]
+    exact ⟨rfl, rfl⟩
+
+/-- upper side ERROR: the call raises ValueError (possibly after lower-side scheduling) -/
+theorem evalRun_error_hi {s : State} (hs : Inv s) (ht : s.hasTable = true) {xs : List Rat} {x : Rat}
+    (hx : x ∈ xs) (hxu : rangeMax s < x) (hhi : s.hi = .error) :
+    (evalRun s true xs).err = some .valueError := by
+  rcases evalRun_err s true xs with h | h
+  · obtain ⟨e1, -, -, -, hspec⟩ := evalRun_spec hs ht xs h
+    exact absurd hhi ((hspec x hx).2.2 hxu).2.2.2
+  · exact h
+
+/-! ### `derivative` -/
+
+theorem mem_posArray {order : Nat} {xd : List (Rat × Rat)} {e : Rat × Rat} {y : Rat}
+    (he : e ∈ xd) (hy : y ∈ stencilPos order e.1 e.2) : y ∈ posArray order xd := by
+  unfold stencilPos at hy
+  obtain ⟨p, hp, rfl⟩ := List.mem_map.1 hy
+  unfold posArray
+  exact List.mem_flatMap.2 ⟨p, hp, List.mem_map.2 ⟨e, he, rfl⟩⟩
+
+theorem sideUpper_same {s : State} (h : s.adaptive = false ∨ s.hi ≠ .none) (xs : List Rat) :
+    (sideUpper s xs).1 = s := by
+  unfold sideUpper
+  split_ifs
+  · rfl
+  · split
+    · rfl
+    · next hhi =>
+      rcases h with h | h
+      · rw [schedule_not_adaptive h]
+      · exact absurd hhi h
+    · rfl
+
+/-- with adaptive interpolation switched off, `evaluate` never changes the object -/
+theorem evalRun_not_adaptive {s : State} (h : s.adaptive = false) (u : Bool) (xs : List Rat) :
+    (evalRun s u xs).st = s := by
+  unfold evalRun
+  split_ifs
+  · rw [schedule_not_adaptive h]
+  · rfl
+  · rfl
+  · rw [schedule_not_adaptive h]
+  · split
+    · exact sideLower_same (Or.inl h) _
+    · dsimp only
+      rw [sideLower_same (Or.inl h), sideUpper_same (Or.inl h)]
+
+/-- the entries of a successful interpolated `derivative` call (order 1 or 2): `s1` is the object
+state after the FIRST of the two `evaluate(pos)` calls made by `helpers.derivative`. -/
+theorem derivRun_spec {s : State} (hs : Inv s) (ht : s.hasTable = true) {order : Nat}
+    (ho : order = 1 ∨ order = 2) (xd : List (Rat × Rat)) {s' : State} {ds : List DTag}
+    (h : derivRun s true order xd = (s', .dtags ds)) :
+    ∃ s1 : State, Evolves s s1 ∧ Inv s1 ∧ (s.adaptive = false → s1 = s) ∧
+      (derivOut s xd ≠ [] → (evalRun s1 true (posArray order (derivOut s xd))).err = none ∧
+          s' = (evalRun s1 true (posArray order (derivOut s xd))).st) ∧
+      (derivOut s xd = [] → s' = s) ∧
+      ds = xd.map (fun e =>
+        if insideE s e = true then .splineDeriv s.epoch order e.1
+        else .fd ((stencilPos order e.1 e.2).map
+              (evalRun s1 true (posArray order (derivOut s xd))).tag)) := by
+  have hidx : derivIdx order = order := by
+    unfold derivIdx; rcases ho with rfl | rfl <;> rfl
+  have ho0 : ¬ order = 0 := by rcases ho with rfl | rfl <;> decide
+  unfold derivRun at h
+  rw [if_neg (by rcases ho with rfl | rfl <;> simp [ht])] at h
+  split_ifs at h with h1
+  · -- no entry outside
+    have hnil : derivOut s xd = [] := List.isEmpty_iff.1 h1
+    injection h with hs' hds
+    injection hds with hds
+    refine ⟨s, Evolves.refl s, hs, fun _ => rfl, fun hne => absurd hnil hne, fun _ => hs'.symm, ?_⟩
+    rw [← hds, hidx]
+    refine List.map_congr_left (fun e he => ?_)
+    have : insideE s e = true := by
+      by_contra hc
+      have : e ∈ derivOut s xd := by
+        unfold derivOut; rw [List.mem_filter]; exact ⟨he, by simpa using hc⟩
+      rw [hnil] at this; cases this
+    rw [if_pos this]
+  · have hne : derivOut s xd ≠ [] := fun hc => h1 (List.isEmpty_iff.2 hc)
+    split at h
+    · injection h with _ hds; cases hds
+    · next herr1 =>
+      split at h
+      · injection h with _ hds; cases hds
+      · next herr2 =>
+        injection h with hs' hds
+        injection hds with hds
+        refine ⟨(evalRun s true (posArray order (derivOut s xd))).st, evalRun_evolves _ _ _,
+          (evalRun_inv (B := False) ⟨hs, fun hf => hf.elim⟩ _ _).1,
+          fun ha => evalRun_not_adaptive ha _ _, fun _ => ⟨herr2, hs'.symm⟩,
+          fun hc => absurd hc hne, ?_⟩
+        rw [← hds, hidx]
+
+/-- `derivative` without table / with `bUseInterpolation=False` (order 1 or 2): every stencil value
+is a direct evaluation -/
+theorem derivDirect_spec {s : State} {order : Nat} (ho : order = 1 ∨ order = 2)
+    (xd : List (Rat × Rat)) {s' : State} {ds : List DTag}
+    (h : derivDirect s order xd = (s', .dtags ds)) :
+    ds = xd.map (fun e => .fd ((stencilPos order e.1 e.2).map .direct)) := by
+  unfold derivDirect at h
+  rw [if_neg (by rcases ho with rfl | rfl <;> decide),
+      if_neg (by rcases ho with rfl | rfl <;> decide)] at h
+  split at h
+  · injection h with _ hds; cases hds
+  · split at h
+    · injection h with _ hds; cases hds
+    · injection h with _ hds
+      injection hds with hds
+      exact hds.symm
+
+/-! ### the step function -/
+
+/-- side condition for `InvBad`: `setBad` (which models replacing the function `f`) must not
+declare an abscissa non-finite that is already stored in the table or in the pending list. -/
+def Respects (s : State) : Op → Prop
+  | .setBad xs => ∀ x, x ∈ s.pts ∨ x ∈ s.pending → x ∉ xs
+  | _ => True
+
+def RespectsAll : State → List Op → Prop
+  | _, [] => True
+  | s, op :: ops => Respects s op ∧ RespectsAll (step s op).1 ops
+
+theorem ofInterp_inv {B : Prop} {s : State} {xs : List Rat} (h : InvG B s)
+    (hb : B → ∀ x ∈ xs, x ∉ s.bad) : InvG B (ofInterp s (interpolate s xs)).1 := by
+  cases hi : interpolate s xs with
+  | none => exact h
+  | some s' => exact h.interp hi hb
+
+theorem step_invG {B : Prop} {s : State} (h : InvG B s) (op : Op) (hr : B → Respects s op) :
+    InvG B (step s op).1 := by
+  cases op with
+  | new k a t n =>
+    dsimp only [step]
+    split_ifs
+    · exact h
+    · refine ⟨⟨fun hf => (by cases hf), fun _ => ?_, rfl⟩, fun _ x hx => ?_⟩
+      · show 0 < t ∨ t = 0
+        omega
+      · rcases hx with hx | hx <;> cases hx
+  | setBad xs =>
+    exact ⟨⟨h.1.table, h.1.count_lt, h.1.count_eq⟩, fun hB x hx => hr hB x hx⟩
+  | table a b n => exact ofInterp_inv h (fun _ x hx => (mem_keep.1 hx).2)
+  | tablevals xs => exact ofInterp_inv h (fun _ x hx => (mem_keep.1 hx).2)
+  | modes lo hi =>
+    have h' : InvG B { s with lo := lo, hi := hi } :=
+      ⟨⟨h.1.table, h.1.count_lt, h.1.count_eq⟩, h.2⟩
+    dsimp only [step]
+    split_ifs
+    · exact ofInterp_inv h' (fun hB x hx => h.2 hB x (Or.inl hx))
+    · exact h'
+  | setAdaptive b =>
+    dsimp only [step]
+    split_ifs
+    · refine ⟨⟨h.1.table, fun _ => ?_, rfl⟩, fun hB x hx => ?_⟩
+      · show 0 < s.threshold ∨ s.threshold = 0
+        omega
+      · rcases hx with hx | hx
+        · exact h.2 hB x (Or.inl hx)
+        · cases hx
+    · exact ⟨⟨h.1.table, fun hf => (by cases hf), h.1.count_eq⟩, h.2⟩
+  | eval u xs =>
+    dsimp only [step]
+    split
+    · exact evalRun_inv h u xs
+    · exact evalRun_inv h u xs
+  | deriv u order xd => exact derivRun_inv h u order xd
+  | extend a b p q =>
+    dsimp only [step]
+    split
+    · next s' e he => rw [fst_of_eq he]; exact extendTable_inv h a b p q
+    · next s' he => rw [fst_of_eq he]; exact extendTable_inv h a b p q
+  | reread =>
+    dsimp only [step]
+    split_ifs
+    · exact h
+    · exact ofInterp_inv h (fun hB x hx => h.2 hB x (Or.inl hx))
+  | get => exact h
+
+theorem invG_init (B : Prop) : InvG B init :=
+  ⟨⟨fun hf => (by cases hf), fun _ => Or.inl (by decide), rfl⟩,
+   fun _ x hx => by rcases hx with hx | hx <;> cases hx⟩
+
 end Lemmas.Interp
